@@ -342,6 +342,12 @@ def random_instance(rnd, family, stable=False):
         load['c1'] = abs(load['c1'])
     dt = pick_dt(rnd, elems, extra_damping=float(load['c1']) if stable else 0.0)
     inst = {'elems': elems, 'load': load, 'ctrls': [], 'stops': []}
+    cand = [i for i in range(1, len(elems) - 1) if elems[i]['kind'] not in ('Flywheel',)]
+    if not stable and cand and rnd.random() < 0.1:
+        # a second external torque on a gear that is not the last element (same magnitude class as the main load)
+        i = rnd.choice(cand)
+        l2 = random_load(rnd, elems[:i + 1], rnd.choice(['small', 'over', 'neg', 'speed']))
+        inst['extra_loads'] = {i: {k: l2[k] for k in ('c0', 'c1', 'c2', 'c3')}}
     if rnd.random() < 0.3:
         inst['numpy'] = True                   # the load function (and a stop threshold) hold numpy scalars, as in the documentation's examples
     n1 = rnd.randint(3, 30)
